@@ -912,3 +912,439 @@ Theorem history_spec : forall s0 ops, reads_as s0 (final_state K s0 ops) (last_c
 Proof. intros s0 ops. apply reads_as_step. reflexivity. Qed.
 
 End Pressure.
+
+(* ------------------------------------------------------------------ *)
+(* Re-entrant unit definitions (callables that call convert()) *)
+
+Lemma via_link_proper s d k :
+  Forall link_proper s -> Forall link_proper d -> link_proper (via_link s d k).
+Proof.
+  intros Hs Hd. split; intros x y E; simpl.
+  - apply convert_proper; [exact Hd|exact Hs|]. rewrite E. reflexivity.
+  - rewrite (convert_proper s d x y Hs Hd E). reflexivity.
+Qed.
+
+(* a unit defined through convert() on units with mutually inverse callables
+   has mutually inverse callables itself *)
+Theorem via_link_inverse s d k :
+  Forall link_inverse s -> Forall link_inverse d -> ~ k == 0 ->
+  link_inverse (via_link s d k).
+Proof.
+  intros Hs Hd Hk.
+  pose proof (inverse_proper_all s Hs) as Ps. pose proof (inverse_proper_all d Hd) as Pd.
+  split; [exact (via_link_proper s d k Ps Pd)|]. split; intro x; simpl.
+  - rewrite (there_and_back d s (x * k) Hd Hs). field. exact Hk.
+  - transitivity (convert d s (convert s d x)).
+    + apply convert_proper; [exact Pd|exact Ps|]. field. exact Hk.
+    + apply there_and_back; assumption.
+Qed.
+
+Theorem via_link_linear s d k :
+  Forall link_linear s -> Forall link_linear d -> ~ k == 0 ->
+  link_linear (via_link s d k).
+Proof.
+  intros Hs Hd Hk.
+  pose proof (linear_proper_all s Hs) as Ps. pose proof (linear_proper_all d Hd) as Pd.
+  destruct (linear d s Hd Hs) as (Ads & Sds). destruct (linear s d Hs Hd) as (Asd & Ssd).
+  split; [exact (via_link_proper s d k Ps Pd)|]. repeat split; intros; simpl.
+  - rewrite <- Ads. apply convert_proper; [exact Pd|exact Ps|]. ring.
+  - rewrite <- Sds. apply convert_proper; [exact Pd|exact Ps|]. ring.
+  - rewrite Asd. field. exact Hk.
+  - rewrite Ssd. field. exact Hk.
+Qed.
+
+Lemma affine_link_linear a : ~ a == 0 -> link_linear (affine_link a 0).
+Proof.
+  intro Ha. split; [split; intros x y E; simpl; rewrite E; reflexivity|].
+  repeat split; intros; simpl; try ring; field; exact Ha.
+Qed.
+
+(* --- invariants of the definition list ----------------------------- *)
+
+Lemma build_from_invariant (I : option nat * built -> Prop) (OK : option nat * uspec -> Prop) :
+  (forall tbl e x, Forall I tbl -> OK e -> build_entry tbl e = Val x -> I x) ->
+  forall spec tbl0 tbl, Forall I tbl0 -> Forall OK spec ->
+  build_from tbl0 spec = Val tbl -> Forall I tbl.
+Proof.
+  intros Hstep. induction spec as [|e r IH]; intros tbl0 tbl H0 Hok H; simpl in H.
+  - injection H as <-. exact H0.
+  - inversion Hok as [|e' r' He Hr]; subst.
+    destruct (build_entry tbl0 e) as [x| |] eqn:E; try discriminate.
+    apply (IH (tbl0 ++ [x]) tbl); [|exact Hr|exact H].
+    apply Forall_app. split; [exact H0|]. constructor; [|constructor].
+    eapply Hstep; eassumption.
+Qed.
+
+Lemma build_units_invariant (I : option nat * built -> Prop) (OK : option nat * uspec -> Prop) :
+  (forall tbl e x, Forall I tbl -> OK e -> build_entry tbl e = Val x -> I x) ->
+  forall spec tbl, Forall OK spec -> build_units spec = Val tbl -> Forall I tbl.
+Proof.
+  intros Hstep spec tbl Hok H. eapply build_from_invariant; [exact Hstep|constructor|exact Hok|exact H].
+Qed.
+
+Lemma chain_links_have (R : link -> Prop) tbl u ch :
+  Forall (fun e : option nat * built => fst e <> None -> R (b_link (snd e))) tbl ->
+  chain_of tbl u = Val ch -> Forall R (links ch).
+Proof.
+  intros HT H. unfold links. apply Forall_map.
+  eapply (chain_entries tbl (fun b => R (b_link b))); [exact HT|exact H].
+Qed.
+
+Lemma negb_Qeq_bool a : negb (Qeq_bool a 0) = true -> ~ a == 0.
+Proof.
+  intros H E. apply Qeq_bool_iff in E. rewrite E in H. discriminate.
+Qed.
+
+Lemma build_entry_inverse tbl e x :
+  Forall (fun e : option nat * built => fst e <> None -> link_inverse (b_link (snd e))) tbl ->
+  entry_ok e = true -> build_entry tbl e = Val x ->
+  fst x <> None -> link_inverse (b_link (snd x)).
+Proof.
+  intros HT Hok H. unfold build_entry in H.
+  destruct (parent_defined (length tbl) (fst e)); [|discriminate].
+  unfold entry_ok in Hok. destruct e as [p sp]. simpl in *.
+  destruct sp as [a b|s d k].
+  - injection H as <-. simpl. intro Hp. destruct p; [|congruence].
+    apply affine_link_inverse. apply negb_Qeq_bool. exact Hok.
+  - destruct (chain_of tbl s) as [cs| |] eqn:Es; try discriminate.
+    destruct (chain_of tbl d) as [cd| |] eqn:Ed; try discriminate.
+    injection H as <-. simpl. intro Hp. destruct p; [|congruence].
+    apply via_link_inverse.
+    + eapply chain_links_have; [exact HT|exact Es].
+    + eapply chain_links_have; [exact HT|exact Ed].
+    + apply negb_Qeq_bool. exact Hok.
+Qed.
+
+Lemma build_entry_linear tbl e x :
+  Forall (fun e : option nat * built => fst e <> None -> link_linear (b_link (snd e))) tbl ->
+  entry_linear e = true -> build_entry tbl e = Val x ->
+  fst x <> None -> link_linear (b_link (snd x)).
+Proof.
+  intros HT Hok H. unfold build_entry in H.
+  destruct (parent_defined (length tbl) (fst e)); [|discriminate].
+  unfold entry_linear in Hok. destruct e as [p sp]. simpl in *.
+  destruct sp as [a b|s d k].
+  - injection H as <-. simpl. intro Hp. destruct p; [|congruence].
+    apply andb_true_iff in Hok. destruct Hok as (Ha & Hb).
+    apply Qeq_bool_iff in Hb. apply negb_Qeq_bool in Ha.
+    pose proof (affine_link_linear a Ha) as (P0 & L1 & L2 & L3 & L4).
+    split; [split; intros x y E; simpl; rewrite E; reflexivity|].
+    repeat split; intros; simpl in *.
+    + rewrite Hb. rewrite (L1 x y). reflexivity.
+    + rewrite Hb. rewrite (L2 c x). reflexivity.
+    + rewrite Hb. rewrite (L3 x y). reflexivity.
+    + rewrite Hb. rewrite (L4 c x). reflexivity.
+  - destruct (chain_of tbl s) as [cs| |] eqn:Es; try discriminate.
+    destruct (chain_of tbl d) as [cd| |] eqn:Ed; try discriminate.
+    injection H as <-. simpl. intro Hp. destruct p; [|congruence].
+    apply via_link_linear.
+    + eapply chain_links_have; [exact HT|exact Es].
+    + eapply chain_links_have; [exact HT|exact Ed].
+    + apply negb_Qeq_bool. exact Hok.
+Qed.
+
+Lemma forallb_Forall {A} (f : A -> bool) l : forallb f l = true -> Forall (fun x => f x = true) l.
+Proof. intro H. apply Forall_forall. apply forallb_forall. exact H. Qed.
+
+(* every unit of a definition list with invertible arithmetic -- at any depth
+   of chaining and of nesting of convert() calls -- has mutually inverse
+   callables: the generic theorems apply to such tables *)
+Theorem built_inverse : forall spec tbl,
+  spec_ok spec = true -> build_units spec = Val tbl ->
+  table_links_inverse (pure_table tbl).
+Proof.
+  intros spec tbl Hok H. unfold table_links_inverse, pure_table. apply Forall_map. simpl.
+  eapply (build_units_invariant
+            (fun e => fst e <> None -> link_inverse (b_link (snd e)))
+            (fun e => entry_ok e = true)); [|apply forallb_Forall; exact Hok|exact H].
+  intros t e x HT He Hb. exact (build_entry_inverse t e x HT He Hb).
+Qed.
+
+Theorem built_linear : forall spec tbl,
+  spec_linear spec = true -> build_units spec = Val tbl ->
+  table_links_linear (pure_table tbl).
+Proof.
+  intros spec tbl Hok H. unfold table_links_linear, pure_table. apply Forall_map. simpl.
+  eapply (build_units_invariant
+            (fun e => fst e <> None -> link_linear (b_link (snd e)))
+            (fun e => entry_linear e = true)); [|apply forallb_Forall; exact Hok|exact H].
+  intros t e x HT He Hb. exact (build_entry_linear t e x HT He Hb).
+Qed.
+
+(* --- consistency of convert() on such units ------------------------ *)
+
+Theorem built_consistent : forall spec tbl,
+  spec_ok spec = true -> build_units spec = Val tbl ->
+  (forall u x y, convert_built tbl u u x = Val y -> y == x) /\
+  (forall a b x y, convert_built tbl a b x = Val y ->
+     exists z, convert_built tbl b a y = Val z /\ z == x) /\
+  (forall a b c x y z, convert_built tbl a b x = Val y -> convert_built tbl b c y = Val z ->
+     exists w, convert_built tbl a c x = Val w /\ z == w).
+Proof.
+  intros spec tbl Hok H. pose proof (built_inverse spec tbl Hok H) as HT.
+  unfold convert_built. repeat split.
+  - intros u x y. apply tbl_same_unit. exact HT.
+  - intros a b x y. apply tbl_there_and_back. exact HT.
+  - intros a b c x y z. apply tbl_composition. exact HT.
+Qed.
+
+Theorem built_convert_linear : forall spec tbl a b x1 x2 c y1 y2,
+  spec_linear spec = true -> build_units spec = Val tbl ->
+  convert_built tbl a b x1 = Val y1 -> convert_built tbl a b x2 = Val y2 ->
+  (exists s, convert_built tbl a b (x1 + x2) = Val s /\ s == y1 + y2) /\
+  (exists m, convert_built tbl a b (c * x1) = Val m /\ m == c * y1).
+Proof.
+  intros spec tbl a b x1 x2 c y1 y2 Hok H. unfold convert_built.
+  apply tbl_linear. exact (built_linear spec tbl Hok H).
+Qed.
+
+(* --- units are defined in order: every loop of convert() ends ------- *)
+
+Definition backward (tbl : list (option nat * built)) : Prop :=
+  forall i p pl, nth_error tbl i = Some (Some p, pl) -> (p < i)%nat.
+
+Lemma build_entry_parent tbl e x :
+  build_entry tbl e = Val x -> forall p, fst x = Some p -> (p < length tbl)%nat.
+Proof.
+  unfold build_entry. destruct (parent_defined (length tbl) (fst e)) eqn:Ep; [|discriminate].
+  assert (F : fst x = fst e -> forall p, fst x = Some p -> (p < length tbl)%nat).
+  { intros E p Hp. rewrite E in Hp. rewrite Hp in Ep. simpl in Ep.
+    apply Nat.ltb_lt. exact Ep. }
+  destruct (snd e) as [a b|s d k].
+  - intro H. injection H as <-. apply F. reflexivity.
+  - destruct (chain_of tbl s) as [cs| |]; try discriminate.
+    destruct (chain_of tbl d) as [cd| |]; try discriminate.
+    intro H. injection H as <-. apply F. reflexivity.
+Qed.
+
+Lemma build_from_backward : forall spec tbl0 tbl,
+  backward tbl0 -> build_from tbl0 spec = Val tbl -> backward tbl.
+Proof.
+  induction spec as [|e r IH]; intros tbl0 tbl H0 H; simpl in H.
+  - injection H as <-. exact H0.
+  - destruct (build_entry tbl0 e) as [x| |] eqn:E; try discriminate.
+    apply (IH (tbl0 ++ [x]) tbl); [|exact H].
+    intros i p pl Hn. destruct (Nat.lt_ge_cases i (length tbl0)) as [Hi|Hi].
+    + rewrite nth_error_app1 in Hn by exact Hi. eapply H0. exact Hn.
+    + rewrite nth_error_app2 in Hn by exact Hi.
+      destruct (i - length tbl0)%nat as [|j] eqn:Ej.
+      * simpl in Hn. injection Hn as Hx.
+        assert (Hp : (p < length tbl0)%nat).
+        { apply (build_entry_parent tbl0 e x E). rewrite Hx. reflexivity. }
+        lia.
+      * simpl in Hn. destruct j; discriminate.
+Qed.
+
+Lemma backward_chain {P} (tbl : list (option nat * P)) :
+  (forall i p pl, nth_error tbl i = Some (Some p, pl) -> (p < i)%nat) ->
+  forall fuel u, (u < fuel)%nat -> (u < length tbl)%nat -> exists ch, chain tbl fuel u = Val ch.
+Proof.
+  intros HB. induction fuel as [|f IH]; intros u Hf Hu; [lia|].
+  simpl. destruct (nth_error tbl u) as [[[p|] pl]|] eqn:E.
+  - pose proof (HB u p pl E) as Hp.
+    destruct (IH p) as (r & Hr); [lia|lia|]. rewrite Hr. eexists. reflexivity.
+  - eexists. reflexivity.
+  - apply nth_error_None in E. lia.
+Qed.
+
+Theorem built_chains_finite : forall spec tbl u,
+  build_units spec = Val tbl -> (u < length tbl)%nat ->
+  exists ch, chain_of tbl u = Val ch.
+Proof.
+  intros spec tbl u H Hu. unfold chain_of. apply backward_chain; [|lia|exact Hu].
+  apply (build_from_backward spec [] tbl); [|exact H].
+  intros i p pl Hn. destruct i; discriminate.
+Qed.
+
+Lemma chain_of_pure tbl u :
+  chain_of (pure_table tbl) u =
+  match chain_of tbl u with
+  | Val ch => Val (map (fun e => (fst e, b_link (snd e))) ch)
+  | Raise e => Raise e
+  | Loops => Loops
+  end.
+Proof. unfold pure_table. apply (chain_of_map b_link tbl u). Qed.
+
+Lemma links_pure ch : map snd (map (fun e : nat * built => (fst e, b_link (snd e))) ch) = links ch.
+Proof. unfold links. rewrite !map_map. reflexivity. Qed.
+
+Theorem built_convert_returns : forall spec tbl a b x,
+  build_units spec = Val tbl -> (a < length tbl)%nat -> (b < length tbl)%nat ->
+  exists y, convert_built tbl a b x = Val y.
+Proof.
+  intros spec tbl a b x H Ha Hb.
+  destruct (built_chains_finite spec tbl a H Ha) as (ca & Ea).
+  destruct (built_chains_finite spec tbl b H Hb) as (cb & Eb).
+  unfold convert_built, convert_tbl. rewrite !chain_of_pure, Ea, Eb. eexists. reflexivity.
+Qed.
+
+(* --- the logging callables compute the same numbers ----------------- *)
+
+Definition erases (b : built) : Prop :=
+  forall v, fst (l_up (b_llink b) v) = to_base (b_link b) (fst v) /\
+            fst (l_down (b_llink b) v) = from_base (b_link b) (fst v).
+
+Lemma fold_fst (f : llink -> lval -> lval) (g : link -> Q -> Q) bs :
+  Forall (fun b => forall v, fst (f (b_llink b) v) = g (b_link b) (fst v)) bs ->
+  forall v, fst (fold_left (fun acc l => f l acc) (map b_llink bs) v) =
+            fold_left (fun acc l => g l acc) (map b_link bs) (fst v).
+Proof.
+  induction 1 as [|b r Hb Hr IH]; intro v; simpl; [reflexivity|].
+  rewrite IH, Hb. reflexivity.
+Qed.
+
+Lemma lconvert_fst bs bd : Forall erases bs -> Forall erases bd ->
+  forall v, fst (lconvert (map b_llink bs) (map b_llink bd) v) =
+            convert (map b_link bs) (map b_link bd) (fst v).
+Proof.
+  intros Hs Hd v. unfold lconvert, convert, convert_with, unfold_down, fold_up.
+  rewrite <- !map_rev.
+  etransitivity.
+  - apply (fold_fst l_down from_base (rev bd)).
+    apply Forall_rev. eapply Forall_impl; [|exact Hd]. intros b Hb w. apply Hb.
+  - f_equal. apply (fold_fst l_up to_base bs).
+    eapply Forall_impl; [|exact Hs]. intros b Hb w. apply Hb.
+Qed.
+
+Lemma chain_built_have (R : built -> Prop) tbl u ch :
+  Forall (fun e : option nat * built => R (snd e)) tbl ->
+  chain_of tbl u = Val ch -> Forall R (map snd ch).
+Proof.
+  intros HT H. eapply (chain_entries tbl R); [|exact H].
+  eapply Forall_impl; [|exact HT]. intros e He _. exact He.
+Qed.
+
+Lemma build_entry_erases tbl e x :
+  Forall (fun e : option nat * built => erases (snd e)) tbl ->
+  build_entry tbl e = Val x -> erases (snd x).
+Proof.
+  intros HT H. unfold build_entry in H.
+  destruct (parent_defined (length tbl) (fst e)); [|discriminate].
+  destruct (snd e) as [a b|s d k].
+  - injection H as <-. intro v. split; reflexivity.
+  - destruct (chain_of tbl s) as [cs| |] eqn:Es; try discriminate.
+    destruct (chain_of tbl d) as [cd| |] eqn:Ed; try discriminate.
+    injection H as <-.
+    pose proof (chain_built_have erases tbl s cs HT Es) as Hs.
+    pose proof (chain_built_have erases tbl d cd HT Ed) as Hd.
+    intro v. split; simpl; unfold llinks, links.
+    + rewrite (lconvert_fst _ _ Hd Hs). reflexivity.
+    + rewrite (lconvert_fst _ _ Hs Hd). reflexivity.
+Qed.
+
+Lemma built_erases spec tbl :
+  build_units spec = Val tbl -> Forall (fun e : option nat * built => erases (snd e)) tbl.
+Proof.
+  intro H. eapply (build_units_invariant (fun e => erases (snd e)) (fun _ => True));
+    [|apply Forall_forall; intros; exact I|exact H].
+  intros t e x HT _ Hb. exact (build_entry_erases t e x HT Hb).
+Qed.
+
+(* the number that the logging run returns is the number of the plain run *)
+Theorem built_trace_value : forall spec tbl a b x,
+  build_units spec = Val tbl ->
+  match trace_built tbl a b x, convert_built tbl a b x with
+  | Val r, Val y => fst r = y
+  | Raise e, Raise e' => e = e'
+  | Loops, Loops => True
+  | _, _ => False
+  end.
+Proof.
+  intros spec tbl a b x H. pose proof (built_erases spec tbl H) as HE.
+  unfold trace_built, convert_built, convert_tbl. rewrite !chain_of_pure.
+  destruct (chain_of tbl a) as [ca|ea|] eqn:Ea; [|reflexivity|exact I].
+  destruct (chain_of tbl b) as [cb|eb|] eqn:Eb; [|reflexivity|exact I].
+  rewrite !links_pure. unfold llinks, links.
+  apply (lconvert_fst (map snd ca) (map snd cb)).
+  - exact (chain_built_have erases tbl a ca HE Ea).
+  - exact (chain_built_have erases tbl b cb HE Eb).
+Qed.
+
+(* --- the complete log ------------------------------------------------ *)
+
+(* what one application of a callable appends to the log (it does not depend
+   on the number or on the log so far, see [uniform]) *)
+Definition up_log (ll : llink) : list (nat * bool) := snd (l_up ll (0, [])).
+Definition down_log (ll : llink) : list (nat * bool) := snd (l_down ll (0, [])).
+
+Definition uniform (ll : llink) : Prop :=
+  forall v, snd (l_up ll v) = snd v ++ up_log ll /\ snd (l_down ll v) = snd v ++ down_log ll.
+
+Lemma fold_snd (f : llink -> lval -> lval) (flog : llink -> list (nat * bool)) ls :
+  Forall (fun l => forall v, snd (f l v) = snd v ++ flog l) ls ->
+  forall v, snd (fold_left (fun acc l => f l acc) ls v) = snd v ++ concat (map flog ls).
+Proof.
+  induction 1 as [|l r Hl Hr IH]; intro v; simpl; [symmetry; apply app_nil_r|].
+  rewrite IH, Hl, <- app_assoc. reflexivity.
+Qed.
+
+(* convert() appends: the callables' logs up the source chain in order, then
+   down the target chain from the root end -- each callable's log in one
+   piece, nested activations included *)
+Theorem lconvert_log ls ld : Forall uniform ls -> Forall uniform ld ->
+  forall v, snd (lconvert ls ld v) =
+            snd v ++ concat (map up_log ls) ++ concat (map down_log (rev ld)).
+Proof.
+  intros Hs Hd v. unfold lconvert, convert_with, unfold_down, fold_up.
+  rewrite (fold_snd l_down down_log (rev ld)).
+  - rewrite (fold_snd l_up up_log ls).
+    + rewrite <- app_assoc. reflexivity.
+    + eapply Forall_impl; [|exact Hs]. intros l Hl w. apply Hl.
+  - apply Forall_rev. eapply Forall_impl; [|exact Hd]. intros l Hl w. apply Hl.
+Qed.
+
+Theorem logged_log u l :
+  uniform (logged u l) /\ up_log (logged u l) = [(u, true)] /\ down_log (logged u l) = [(u, false)].
+Proof. split; [intro v; split; reflexivity|split; reflexivity]. Qed.
+
+Theorem lvia_log u s d k : Forall uniform s -> Forall uniform d ->
+  uniform (lvia u s d k) /\
+  up_log (lvia u s d k) = (u, true) :: concat (map up_log d) ++ concat (map down_log (rev s)) /\
+  down_log (lvia u s d k) = (u, false) :: concat (map up_log s) ++ concat (map down_log (rev d)).
+Proof.
+  intros Hs Hd.
+  assert (U : up_log (lvia u s d k) = (u, true) :: concat (map up_log d) ++ concat (map down_log (rev s))).
+  { unfold up_log at 1. simpl. rewrite (lconvert_log d s Hd Hs). reflexivity. }
+  assert (D : down_log (lvia u s d k) = (u, false) :: concat (map up_log s) ++ concat (map down_log (rev d))).
+  { unfold down_log at 1. simpl. rewrite (lconvert_log s d Hs Hd). reflexivity. }
+  split; [|split; assumption].
+  intro v. rewrite U, D. split; simpl.
+  - rewrite (lconvert_log d s Hd Hs). simpl. rewrite <- app_assoc. reflexivity.
+  - rewrite (lconvert_log s d Hs Hd). simpl. rewrite <- app_assoc. reflexivity.
+Qed.
+
+Lemma build_entry_uniform tbl e x :
+  Forall (fun e : option nat * built => uniform (b_llink (snd e))) tbl ->
+  build_entry tbl e = Val x -> uniform (b_llink (snd x)).
+Proof.
+  intros HT H. unfold build_entry in H.
+  destruct (parent_defined (length tbl) (fst e)); [|discriminate].
+  destruct (snd e) as [a b|s d k].
+  - injection H as <-. apply logged_log.
+  - destruct (chain_of tbl s) as [cs| |] eqn:Es; try discriminate.
+    destruct (chain_of tbl d) as [cd| |] eqn:Ed; try discriminate.
+    injection H as <-. simpl. apply lvia_log; unfold llinks; apply Forall_map.
+    + exact (chain_built_have (fun b => uniform (b_llink b)) tbl s cs HT Es).
+    + exact (chain_built_have (fun b => uniform (b_llink b)) tbl d cd HT Ed).
+Qed.
+
+Lemma built_uniform spec tbl :
+  build_units spec = Val tbl -> Forall (fun e : option nat * built => uniform (b_llink (snd e))) tbl.
+Proof.
+  intro H. eapply (build_units_invariant (fun e => uniform (b_llink (snd e))) (fun _ => True));
+    [|apply Forall_forall; intros; exact I|exact H].
+  intros t e x HT _ Hb. exact (build_entry_uniform t e x HT Hb).
+Qed.
+
+(* the log of convert(a, b, x) on a definition list, for every x *)
+Theorem built_trace_log : forall spec tbl a b x ca cb,
+  build_units spec = Val tbl -> chain_of tbl a = Val ca -> chain_of tbl b = Val cb ->
+  exists r, trace_built tbl a b x = Val r /\
+            snd r = concat (map up_log (llinks ca)) ++ concat (map down_log (rev (llinks cb))).
+Proof.
+  intros spec tbl a b x ca cb H Ea Eb. pose proof (built_uniform spec tbl H) as HU.
+  unfold trace_built. rewrite Ea, Eb. eexists. split; [reflexivity|].
+  rewrite lconvert_log; [reflexivity| |]; unfold llinks; apply Forall_map.
+  - exact (chain_built_have (fun b => uniform (b_llink b)) tbl a ca HU Ea).
+  - exact (chain_built_have (fun b => uniform (b_llink b)) tbl b cb HU Eb).
+Qed.
